@@ -10,6 +10,7 @@ def claim(id, level, technique, text, note):
 
 exec(open(os.path.join(HERE, "tools", "claims.py")).read())
 
+FUZZ_SUFFIX = "; thorough tier additionally runs a coverage-guided libFuzzer campaign (ASan, release profile) that drives the same generated sub-checks and oracles through the choice-vector bridge, crashes converted to replay files"
 props = [json.loads(l) for l in open(os.path.join(HERE, "properties.jsonl"))]
 checks, na = [], []
 for p in props:
@@ -25,7 +26,7 @@ for p in props:
             "engine": "vcore",
             "level_claimed": {"category": level, "text": text, "design_ref": f"DESIGN.md section 4, {i}"},
             "level_note": note,
-            "technique": technique,
+            "technique": technique + (FUZZ_SUFFIX if i != "C06" else ""),
         })
     else:
         na.append({"property_id": i, "reason": NOT_BUILT.get(i, "check not built yet; planned as described in DESIGN.md section 4 (property-based testing applies, nothing about the property prevents it)")})
@@ -33,7 +34,7 @@ for p in props:
 fix_commits = subprocess.run(["git", "-C", "/repo", "log", "--format=%h %s", "c85060a..HEAD"], capture_output=True, text=True).stdout.strip().splitlines()
 manifest = {
     "version": 1,
-    "setup_cmd": "cd /verif/harness && CARGO_NET_OFFLINE=true cargo build --release --workspace && CARGO_NET_OFFLINE=true cargo build --release -p vdet --features serial && CARGO_NET_OFFLINE=true cargo build --release -p vdet --features concurrent --target-dir /verif/harness/target-concurrent && CARGO_NET_OFFLINE=true cargo build --release -p vdet --features async --target-dir /verif/harness/target-async",
+    "setup_cmd": "cd /verif/harness && CARGO_NET_OFFLINE=true cargo build --release --workspace && CARGO_NET_OFFLINE=true cargo build --release -p vdet --features serial && CARGO_NET_OFFLINE=true cargo build --release -p vdet --features concurrent --target-dir /verif/harness/target-concurrent && CARGO_NET_OFFLINE=true cargo build --release -p vdet --features async --target-dir /verif/harness/target-async && CARGO_NET_OFFLINE=true cargo +nightly fuzz build -O --fuzz-dir /verif/harness/fuzz --target-dir /verif/harness/target bridge",
     "hooks": {
         "guard": "winterfell_verif",
         "enable": "no hooks are used: every check reaches the code through public API (DESIGN.md section 8); the name is reserved (RUSTFLAGS=--cfg winterfell_verif)",
@@ -44,6 +45,8 @@ manifest = {
     "engines": [
         {"name": "vcore", "path": "/verif/harness/vcore", "serves_properties": sorted(CHECKS.keys()),
          "kind_free_text": "proptest-driven choice-sequence engine: cases are u64 vectors generated and shrunk by proptest (fixed ChaCha seeds derived from VERIF_SEED), decoded by per-property generators, checked against explicit oracles; exhaustive small-scope enumeration where stated; worker-subprocess isolation with RLIMIT_AS and per-case watchdog for crash/hang properties; replay files are the shrunk choice vectors"},
+        {"name": "vfuzz", "path": "/verif/harness/fuzz", "serves_properties": sorted(k for k in CHECKS.keys() if k != "C06"),
+         "kind_free_text": "cargo-fuzz / libFuzzer target `bridge` (built -O with AddressSanitizer): fuzzer bytes are decoded into the choice vector of one generated sub-check (VERIF_FUZZ_TARGET=<Cxx>/<sub>), which runs in-process with its oracle; corpus seeded with generated cases; saved inputs are converted to replay files and decided by the release-profile check binary (tools/fuzz_stage.py, thorough tier only)"},
     ],
     "checks": checks,
     "not_applicable": na,
